@@ -35,25 +35,26 @@ const tabSize = 8
 // The parser uses the type <prefix>Lex as a lexer.  It must provide
 // the methods Lex(*<prefix>SymType) int and Error(string).
 type yyLex struct {
-	reader        *bufio.Reader
-	filename      string     // name of the file being read
-	line          string     // current line being parsed
-	lastLine      string     // last line that was parsed
-	pos           ast.Pos    // current position within file
-	yylval        *yySymType // last token
-	eof           bool       // flag to show EOF was read
-	error         bool       // set if an error has ocurred
-	errorString   string     // the string of the error
-	indentStack   []int      // indent stack to control INDENT / DEDENT tokens
-	state         int        // current state of state machine
-	currentIndent string     // whitespace at start of current line
-	interactive   bool       // set if mode "single" reading interactive input
-	exec          bool       // set if mode "exec" reading from file
-	bracket       int        // number of open [ ]
-	parenthesis   int        // number of open ( )
-	brace         int        // number of open { }
-	mod           ast.Mod    // output
-	tokens        []int      // buffered tokens to output
+	reader         *bufio.Reader
+	filename       string     // name of the file being read
+	line           string     // current line being parsed
+	lastLine       string     // last line that was parsed
+	pos            ast.Pos    // current position within file
+	yylval         *yySymType // last token
+	eof            bool       // flag to show EOF was read
+	error          bool       // set if an error has ocurred
+	errorString    string     // the string of the error
+	indentStack    []int      // indent stack to control INDENT / DEDENT tokens
+	altIndentStack []int      // the same indents measured with a tab worth one column
+	state          int        // current state of state machine
+	currentIndent  string     // whitespace at start of current line
+	interactive    bool       // set if mode "single" reading interactive input
+	exec           bool       // set if mode "exec" reading from file
+	bracket        int        // number of open [ ]
+	parenthesis    int        // number of open ( )
+	brace          int        // number of open { }
+	mod            ast.Mod    // output
+	tokens         []int      // buffered tokens to output
 }
 
 // Create a new lexer
@@ -64,10 +65,11 @@ type yyLex struct {
 // consists of a single interactive statement
 func NewLex(r io.Reader, filename string, mode py.CompileMode) (*yyLex, error) {
 	x := &yyLex{
-		reader:      bufio.NewReader(r),
-		filename:    filename,
-		indentStack: []int{0},
-		state:       readString,
+		reader:         bufio.NewReader(r),
+		filename:       filename,
+		indentStack:    []int{0},
+		altIndentStack: []int{0},
+		state:          readString,
 	}
 	switch mode {
 	case py.ExecMode:
@@ -371,6 +373,7 @@ func (x *yyLex) queueDedents() {
 		x.queue(DEDENT)
 	}
 	x.indentStack = x.indentStack[:1]
+	x.altIndentStack = x.altIndentStack[:1]
 }
 
 // The parser calls this method to get each new token.  This
@@ -436,12 +439,28 @@ func (x *yyLex) Lex(yylval *yySymType) (ret int) {
 			}
 			// See if indent has changed and issue INDENT / DEDENT
 			indent := countIndent(x.currentIndent)
+			// Every indent is measured a second time with a tab
+			// worth one column (the indent is spaces and tabs
+			// only).  If the two measures order two indents
+			// differently then what the program means depends on
+			// the worth of a tab, which the language rejects.
+			altIndent := len(x.currentIndent)
+			const tabError = "inconsistent use of tabs and spaces in indentation"
 			i := len(x.indentStack) - 1
 			indentStackTop := x.indentStack[i]
 			if indent == indentStackTop {
+				if altIndent != x.altIndentStack[i] {
+					x.SyntaxError(tabError)
+					return eof
+				}
 				continue
 			} else if indent > indentStackTop {
+				if altIndent <= x.altIndentStack[i] {
+					x.SyntaxError(tabError)
+					return eof
+				}
 				x.indentStack = append(x.indentStack, indent)
+				x.altIndentStack = append(x.altIndentStack, altIndent)
 				yylval.pos.ColOffset = 0 // Indents start at 0
 				return INDENT
 			} else {
@@ -454,7 +473,12 @@ func (x *yyLex) Lex(yylval *yySymType) (ret int) {
 				x.SyntaxError("Inconsistent indent")
 				return eof
 			foundIndent:
+				if altIndent != x.altIndentStack[i] {
+					x.SyntaxError(tabError)
+					return eof
+				}
 				x.indentStack = x.indentStack[:i+1]
+				x.altIndentStack = x.altIndentStack[:i+1]
 				return x.dequeue()
 			}
 		case parseTokens:
